@@ -133,7 +133,9 @@ def env_cases(draw):
             v = draw(st.floats(-5, 1e3, allow_nan=False))
         obs.append(v)
         cur = min(cur, v)
-    return {"first": first, "obs": obs, "nb": draw(st.integers(1, 6))}
+    return {"first": first, "obs": obs, "nb": draw(st.integers(1, 6)),
+            # before some observations the owning scheduler is re-seeded (public setter): the reference best is not a seed matter
+            "reseed_before": draw(st.one_of(st.just([]), st.just([]), st.lists(st.integers(0, 14), max_size=3, unique=True)))}
 
 
 def init_reference(env, first, nb):
@@ -146,6 +148,7 @@ def init_reference(env, first, nb):
     n = max(1, nb - 1)
     sch = RLScheduler([RandomUniformSampler(1) for _ in range(n)], agent=MABEpsilonGreedy(n + 1, -1, 0.0), env=env)
     sch.update(0, np.zeros((1, 2)), np.array([first]), np.zeros((1, 1, 2, 1)))
+    return sch
 
 
 def check_env(ctx: Ctx, case):
@@ -154,16 +157,19 @@ def check_env(ctx: Ctx, case):
     sub = "env"
     with guard(ctx, "C19/exception", sub, case):
         env = MABCalibrationEnv(case["nb"])
-        init_reference(env, case["first"], case["nb"])
+        sch = init_reference(env, case["first"], case["nb"])
     ref = case["first"]
     imp = sum(1 for i, v in enumerate(case["obs"]) if v < min([case["first"]] + case["obs"][:i]))
-    ctx.count(sub, case, imp >= 1 and imp < len(case["obs"]), [f"improvements={min(imp, 3)}"])
+    ctx.count(sub, case, imp >= 1 and imp < len(case["obs"]), [f"improvements={min(imp, 3)}"] +
+              (["scheduler-re-seeded"] if case.get("reseed_before") else []))
     for step, v in enumerate(case["obs"]):
         if v < ref and ref == 0:
             ctx.exclude("improvement on a zero reference (formula undefined)")
             return
         exp = (ref - v) / ref if v < ref else 0.0
         with guard(ctx, "C19/exception", sub, case):
+            if step in case.get("reseed_before", []):
+                sch.random_state = 1000 + step
             r = env.get_reward(np.zeros(2), v)
         if v < ref:
             ref = v
